@@ -89,6 +89,8 @@ fn claim_before(cursor: &impl RewindableAtomic, limit: usize) -> Option<usize> {
         if current >= limit {
             return None;
         }
+        #[cfg(feature = "verif")]
+        crate::verif::point(crate::verif::Point::CursorClaimBeforeCas, current, limit);
         if cursor
             .compare_exchange_weak(current, current + 1, Ordering::AcqRel, Ordering::Acquire)
             .is_ok()
